@@ -1,11 +1,13 @@
 (* C13/Properties.v — property C13: 128-bit integers have consistent numeric views.
    Only statements, each closed by `exact <lemma>`, with Print Assumptions beneath. *)
 From Common Require Import Bytes Dec.
-From C13 Require Import Model Proofs.
+From C13 Require Import Model Proofs ProofsMore.
 Local Open Scope N_scope.
 
 (* Every view of a 128-bit value denotes value u = upper * 2^64 + lower:
-   decimal string, JSON form, little- and big-endian byte forms, big-integer conversion. *)
+   decimal string, JSON form, little- and big-endian byte forms, big-integer conversion, and
+   the library's own readers of the two byte forms (NewUint128 with either byte order; the
+   big-endian one after fixes/C13-newuint128-be.patch). *)
 Theorem C13_views : forall u, wf u = true ->
      parse_decimal (to_string u) = Some (value u)
   /\ to_string u = decimal (value u)
@@ -13,17 +15,9 @@ Theorem C13_views : forall u, wf u = true ->
   /\ le_val (bytes LE u) = value u
   /\ be_val (bytes BE u) = value u
   /\ of_big (value u) = u
-  /\ of_bytes LE (bytes LE u) = u.
-Proof.
-  intros u H. repeat split.
-  - exact (parse_to_string u H).
-  - exact (to_string_value u H).
-  - exact (to_string_value u H).
-  - exact (le_val_bytes u H).
-  - exact (be_val_bytes u H).
-  - exact (of_big_value u H).
-  - exact (of_bytes_le_bytes u H).
-Qed.
+  /\ of_bytes LE (bytes LE u) = u
+  /\ of_bytes BE (bytes BE u) = u.
+Proof. exact views_all. Qed.
 Print Assumptions C13_views.
 
 Theorem C13_json_roundtrip : forall u, wf u = true -> unmarshal_json (marshal_json u) = Some u.
@@ -34,6 +28,31 @@ Theorem C13_compare_numeric : forall u v, wf u = true -> wf v = true ->
   compare u v = (value u ?= value v).
 Proof. exact compare_value. Qed.
 Print Assumptions C13_compare_numeric.
+
+(* The constructors denote the number their INPUT denotes, for every input (not only for the byte
+   forms of a value): NewUint128 from at most 16 bytes in either order, NewUint128 from a big
+   integer below 2^128, UnmarshalJSON of the decimal numeral of a number below 2^128. *)
+Theorem C13_from_bytes : forall o b, (length b <= 16)%nat ->
+  wf (of_bytes o b) = true /\ value (of_bytes o b) = val_of o b.
+Proof. exact of_bytes_value. Qed.
+Print Assumptions C13_from_bytes.
+
+Theorem C13_from_big : forall n, n < two64 * two64 ->
+  wf (of_big n) = true /\ value (of_big n) = n.
+Proof. exact of_big_wf_value. Qed.
+Print Assumptions C13_from_big.
+
+Theorem C13_json_decode : forall n, n < two64 * two64 ->
+  exists u, unmarshal_json (decimal n) = Some u /\ wf u = true /\ value u = n.
+Proof. exact unmarshal_decimal. Qed.
+Print Assumptions C13_json_decode.
+
+(* no two 128-bit values share a decimal string, a JSON form or a byte form *)
+Theorem C13_views_injective : forall u v, wf u = true -> wf v = true ->
+  (to_string u = to_string v \/ marshal_json u = marshal_json v \/
+   bytes LE u = bytes LE v \/ bytes BE u = bytes BE v) -> u = v.
+Proof. exact views_injective. Qed.
+Print Assumptions C13_views_injective.
 
 (* non-vacuity: a value with both halves non-zero and interior zero bytes *)
 Example C13_nonvacuous :
@@ -47,3 +66,11 @@ Theorem C13_string_prefix_refuted :
   exists u, wf u = true /\ parse_decimal (to_string_prefix u) <> Some (value u).
 Proof. exact to_string_prefix_refuted. Qed.
 Print Assumptions C13_string_prefix_refuted.
+
+(* NewUint128(bytes, BigEndian) of the tree before fixes/C13-newuint128-be.patch exchanged the
+   halves: the big-endian byte form of 1 was read back as 2^64 *)
+Theorem C13_from_bytes_prefix_refuted :
+  exists u, wf u = true /\ of_bytes_prefix BE (bytes BE u) <> u /\
+            value (of_bytes_prefix BE (bytes BE u)) <> be_val (bytes BE u).
+Proof. exact of_bytes_prefix_refuted. Qed.
+Print Assumptions C13_from_bytes_prefix_refuted.
